@@ -242,7 +242,7 @@ def read_values(m: Model, subset, designated_system, negtable, values, modal=Fal
             if k not in values:
                 raise Raised(f'KeyError value {k!r} not in {values}')
             return k
-    model = Obj('model')
+    model = Obj('model', __srcclass__=(m, ClassRef('pytableaux.models', 'BaseModel')))
     model.values = Values()
     class _R:
         def add(self, pair):
